@@ -6,10 +6,10 @@ export GOFLAGS=-mod=mod GOPROXY=off GOSUMDB=off GOTOOLCHAIN=local
 OUT=/verif/mutation
 B=$(mktemp -d /tmp/mutbase.XXXXXX); git -C /repo archive HEAD | tar -x -C $B; cp /repo/verif_contracts.go $B/
 one() {
-  id=$1; desc=$(cat $OUT/points.txt $OUT/points_b.txt 2>/dev/null | grep "^$id " | head -1 | cut -d" " -f2-)
+  id=$1; desc=$(cat $OUT/points.txt $OUT/points_b.txt $OUT/points_c.txt 2>/dev/null | grep "^$id " | head -1 | cut -d" " -f2-)
   W=$(mktemp -d /tmp/mut2.XXXXXX); cp -r $B/. $W/
   /verif/bin/mutate -dir $W -apply $id >/dev/null 2>&1
-  A=$(/verif/bin/rosvc affected -repo $W -base $B 2>/dev/null | tail -1)
+  A=$(/verif/bin/rosvc affected -repo $W -base $B 2>/dev/null | grep '^AFFECTED ' | tail -1 | cut -d' ' -f2-)
   case "$A" in
     NONE) echo "$id MISSED $desc (no function under contract is affected)"; rm -rf $W; return;;
     "") echo "$id INCOMPLETE $desc"; rm -rf $W; return;;
